@@ -570,6 +570,10 @@ func (c *FCtx) havocLoopGhosts(st *State, body *ast.BlockStmt) {
 		if lo <= pos && pos <= hi {
 			in["call "+ord] = true
 			in["before call "+ord] = true
+			if k := strings.LastIndex(ord, "#"); k > 0 {
+				in["call "+ord[:k]+"#*"] = true
+				in["before call "+ord[:k]+"#*"] = true
+			}
 		}
 	}
 	for pos, ord := range c.stmtOrd {
